@@ -14,7 +14,8 @@ LENS_THOROUGH = LENS_QUICK + [(2, 2, 2, 2, 2, 2), (3, 1, 2, 1, 1, 3), (2, 3, 1, 
 
 
 MODE = {"cases": ("Cases", "Emit", ["WellDefinedInv", "C14_ContribPartition"], "C"),
-        "equiv": ("Equiv", "EmitRel", ["C08_Equivariance"], "R")}
+        "equiv": ("Equiv", "EmitRel", ["C08_Equivariance"], "R"),
+        "short": ("Shorthand", "EmitPairs", ["C07_BothParse", "C07_SyntacticSame"], "P")}
 
 
 def _run_one(args):
@@ -36,7 +37,7 @@ def _run_one(args):
 
 def _spec_hash():
     h = hashlib.sha1()
-    for f in ("Loop.tla", "Cases.tla", "Equiv.tla"):
+    for f in ("Loop.tla", "Cases.tla", "Equiv.tla", "Shorthand.tla", "Parse.tla"):
         with open(os.path.join(common.SPEC, f), "rb") as fh:
             h.update(fh.read())
     return h.hexdigest()[:16]
